@@ -21,10 +21,34 @@ MANIFEST = {'note': 'Trusted: Lean 4.33 kernel (axioms propext, Classical.choice
          'known_findings.json.',
  'technique': 'Lean 4 proof (structural induction on the geometry tree) + model/implementation '
               'correspondence on random geometry trees',
- 'text': 'Proved for the model by mutual structural induction over the geometry tree (all nestings, all '
-         'empty members): coords_count = length of coords_iter; further consistency theorems (exterior '
-         'subsequence, map/traversal commutation, bounding box = min/max, extremes) are added to '
-         'Props/C19.lean as they are proved and counted in the evidence. Every separately written Rust impl '
-         '(count, iter, exterior iter, lines, map/try_map/in-place, bounding_rect, extremes) is mirrored by '
-         'its own Lean function and compared exactly on random trees to depth 3; the property clauses are '
-         "also evaluated directly on the implementation's outputs."}
+ 'text': 'Proved in Lean for the model (GeoModel/Traverse.lean), by mutual structural induction over the '
+         'geometry tree (all 10 types, every nesting of collections, empty members): (1) count_eq_length: '
+         'coords_count = length of coords_iter. (2) exterior_sublist: exterior_coords_iter is a sub-sequence '
+         'of coords_iter; equal when no polygon has interior coordinates (exterior_eq_of_noInteriors / '
+         'exterior_eq_of_noPolygons). (3) windows2_eq_zip, windows2_length, windows2_getElem?, '
+         'lines_pairs_{lineString,multiLineString,polygon,multiPolygon}: lines_iter is the consecutive '
+         'coordinate pairs of each linear component; lines_endpoints: every yielded line has both end points '
+         'in coords_iter (Rect, Triangle included). (4) map_traversal: coords_iter(map_coords f g) = map f '
+         "(coords_iter g) under the decidable hypothesis mapRegular f g = no Rect member (the property's own "
+         'exception; mapCoords_rect states what Rect does, map_traversal_rect_monotone the order-preserving '
+         'case), every Triangle member keeps a non-negative cross product under f (otherwise Triangle::new '
+         'reverses it: known finding K8, map_triangle_flip_witness), polygon rings closed (the C18 '
+         'invariant; map_open_ring_witness shows why); map_count / map_count_closed: coords_count is '
+         'preserved. (5) tryMap_ok: try_map_coords with a never-failing function = Ok(map_coords) for every '
+         'geometry; tryMapList_first_err, tryMapList_ok_iff, tryMap_err_eq and tryMap_first_err: '
+         'try_map_coords returns Err e exactly when some fed coordinate fails with e and all coordinates fed '
+         'before it (traversal order) succeed; tryMap_err_mem. (6) getBoundingRect_none_iff, bbox_none_iff: '
+         'bounding_rect = None iff the exterior traversal is empty; getBoundingRect_bounds, bbox_spec, '
+         'bbox_bounds, bbox_unique, bboxMerge_spec: the box is the unique component-wise min/max of the '
+         'exterior traversal (all inside, each bound attained), through the running get_min_max fold '
+         '(invariant min<=max) and bounding_rect_merge, for Rect members with min<=max (C18 invariant, '
+         'hypothesis rectsValid); that the box ranges over the exterior only is known finding K6 '
+         "(bbox_ignores_hole_witness); bbox_none_iff_coords / bbox_bounds_coords give the property's literal "
+         'wording (coords_iter) for geometries whose polygons have no interior coordinates. (7) '
+         'extremes_attain: each of the four extremes sits at the index it names, attains the bound, and its '
+         "index is the first attaining it; extremes_none_iff; extremes_eq_bbox: the extremes' coordinates "
+         'equal the bounds bounding_rect reports. Not modelled in Lean (correspondence only): '
+         'map_coords_in_place / try_map_coords_in_place agreement with map_coords. Every separately written '
+         'Rust impl (count, iter, exterior iter, lines, map/try_map/in-place, bounding_rect, extremes) is '
+         'mirrored by its own Lean function and compared exactly on random trees to depth 3; the property '
+         "clauses are also evaluated directly on the implementation's outputs."}
